@@ -299,11 +299,13 @@ func nullRowError(i int) error {
 }
 
 func calculateOrgDocumentRefs(drs []*org.DocumentRef, cur currency.Code, rr cbc.Key) {
-	for _, drs := range drs {
-		if drs.Currency != currency.CodeEmpty {
-			cur = drs.Currency
+	for _, dr := range drs {
+		// each reference uses its own currency, or the document's
+		c := cur
+		if dr.Currency != currency.CodeEmpty {
+			c = dr.Currency
 		}
-		drs.Calculate(cur, rr)
+		dr.Calculate(c, rr)
 	}
 }
 
